@@ -4,11 +4,20 @@ operation a block '== n echo -> outcome' + canonical state lines.  This module s
 outputs and reports, per script, the first differing step and state component."""
 import subprocess, os, time
 
-def split_scripts(text, oracle_out=None):
+def split_scripts(text, oracle_out=None, inv_out=None):
     """-> {name: [block, ...]}, block = list of lines starting with '== ' (or '!! CRASH').
     Lines '!O <property> <message>' (impl-side oracle reports) are diverted to oracle_out."""
     scripts, cur, blk, name = {}, None, None, None
     for ln in text.split("\n"):
+        if ln.startswith("#I "):
+            if inv_out is not None and cur is not None:
+                d = dict(p.split("=", 1) for p in ln[3:].split())
+                inv_out["states"] = inv_out.get("states", 0) + 1
+                if d.get("valid") == "1":
+                    inv_out["valid_states"] = inv_out.get("valid_states", 0) + 1
+                    if d.get("fail"):
+                        inv_out.setdefault("fails", []).append({"script": name, "step": len(cur), "invariants": d["fail"]})
+            continue
         if ln.startswith("!O "):
             if oracle_out is not None and cur is not None:
                 parts = ln.split(" ", 2)
@@ -64,26 +73,29 @@ def compare(impl_blocks, model_blocks, name):
                 return Divergence(name, i + 1, component(a if a != "<missing>" else b), a, b, mb[0])
     return None
 
-def run_both(impl_cmd, model_cmd, script_file, timeout=600, env=None):
+def run_both(impl_cmd, model_cmd, script_file, timeout=600, env=None, model_env=None):
     t0 = time.time()
     e = dict(os.environ)
     e.setdefault("ASAN_OPTIONS", "detect_leaks=0:abort_on_error=1:allocator_may_return_null=1")
     e.setdefault("UBSAN_OPTIONS", "print_stacktrace=1:halt_on_error=1")
     if env: e.update(env)
     pi = subprocess.Popen(impl_cmd + [script_file], stdout=subprocess.PIPE, stderr=subprocess.PIPE, env=e)
-    pm = subprocess.Popen(model_cmd + [script_file], stdout=subprocess.PIPE, stderr=subprocess.PIPE)
+    me_ = dict(os.environ)
+    if model_env: me_.update(model_env)
+    pm = subprocess.Popen(model_cmd + [script_file], stdout=subprocess.PIPE, stderr=subprocess.PIPE, env=me_)
     mo, me = pm.communicate(timeout=timeout)
     io, ie = pi.communicate(timeout=timeout)
     return (io.decode(errors="replace"), ie.decode(errors="replace"), mo.decode(errors="replace"),
             me.decode(errors="replace"), pi.returncode, pm.returncode, time.time() - t0)
 
-def lockstep(impl_cmd, model_cmd, script_file, timeout=600):
+def lockstep(impl_cmd, model_cmd, script_file, timeout=600, model_env=None):
     """-> (divergences, stats)"""
-    io, ie, mo, me, irc, mrc, wall = run_both(impl_cmd, model_cmd, script_file, timeout)
+    io, ie, mo, me, irc, mrc, wall = run_both(impl_cmd, model_cmd, script_file, timeout, model_env=model_env)
     if mrc != 0:
         raise RuntimeError("model driver failed: " + me[-2000:])
     ofails = []
-    si, sm = split_scripts(io, ofails), split_scripts(mo)
+    inv = {}
+    si, sm = split_scripts(io, ofails), split_scripts(mo, None, inv)
     divs = []
     steps = 0
     outcomes = {"Ok": 0, "Rejected": 0, "Unresolvable": 0}
@@ -101,7 +113,7 @@ def lockstep(impl_cmd, model_cmd, script_file, timeout=600):
     for name in si:
         if name not in sm:
             divs.append(Divergence(name, 0, "missing", "<script only on impl side>", "", ""))
-    return divs, {"scripts": len(sm), "steps": steps, "outcomes": outcomes, "ops": ops, "wall_s": wall, "oracle_fails": ofails,
+    return divs, {"scripts": len(sm), "steps": steps, "outcomes": outcomes, "ops": ops, "wall_s": wall, "oracle_fails": ofails, "inv": inv,
                   "impl_stderr_tail": ie[-3000:], "model_out": mo, "impl_out": io}
 
 def extract_script(script_file, name):
